@@ -280,18 +280,15 @@ Theorem C08_flp_row_selects_past_quota_in_mixed_batch_refuted :
 Proof. exact flp_batch_quota_refuted. Qed.
 Print Assumptions C08_flp_row_selects_past_quota_in_mixed_batch_refuted.
 
-(* MDPPEnv keeps the quota of a default DPPGenerator (20), not its own generator's max_decaps *)
-Theorem C08_mdpp_env_quota_ignores_generator_refuted :
-  exists g, 1 <= g /\ mdpp_env_max_decaps g <> g.
-Proof. exact mdpp_env_quota_refuted. Qed.
-Print Assumptions C08_mdpp_env_quota_ignores_generator_refuted.
+(* The quota MDPPEnv / DPPEnv enforce is their own generator's max_decaps (for MDPP this holds since the repair
+   recorded as fixed in known_findings.json; before it the env kept the default 20). *)
+Theorem C08_mdpp_env_quota_is_generator_quota : forall g, mdpp_env_max_decaps g = g.
+Proof. exact mdpp_env_quota_is_generator_quota. Qed.
+Print Assumptions C08_mdpp_env_quota_is_generator_quota.
 
-Theorem C08_mdpp_not_done_after_requested_decaps_refuted :
-  exists (g : Z) I as_ s,
-    1 <= g /\ md_q I = mdpp_env_max_decaps g /\ mdpp_wf I /\ mdpp_run I (mdpp_reset I) as_ = Some s /\
-    g < Z.of_nat (length as_) /\ d_done s = false.
-Proof. exact mdpp_quota_episode_refuted. Qed.
-Print Assumptions C08_mdpp_not_done_after_requested_decaps_refuted.
+Theorem C08_dpp_env_quota_is_generator_quota : forall g, dpp_env_max_decaps g = g.
+Proof. exact dpp_env_quota_is_generator_quota. Qed.
+Print Assumptions C08_dpp_env_quota_is_generator_quota.
 
 (* quota < 1 and quota > number of allowed items are outside the theorems for a reason *)
 Theorem C08_flp_quota_zero_selects_one_refuted :
